@@ -164,6 +164,49 @@ def marker_rules(pyx, py):
         open(os.path.join(os.path.dirname(PYX_PATH), "cyexpression.pyx")).read(), "cyexpression.is_discrete")
 
 
+def exceptions_and_weights(pyx, py, cyexpr, cyvars):
+    """exception classes and the weight / penalty rules"""
+    out = {}
+    # Variables.index: an unknown label is a ValueError (every label is resolved through it first)
+    one(r"raise ValueError\('unknown variable \{!r\}'\.format\(v\)\)", cyvars, "cyvariables.index unknown label")
+    out["unknown_variable"] = "GValue"
+    # constraints[label] of an unknown label: KeyError
+    one(r"vi = self\.parent\.constraint_labels\.index\(key\)\n\s*except ValueError as err:\n\s*raise KeyError\(repr\(key\)\) from None",
+        pyx, "cyConstraintsView.__getitem__")
+    out["unknown_constraint_view"] = "GKey"
+    # change_vartype: the C++ logic_error becomes TypeError
+    one(r"try:\n\s*self\.cppcqm\.change_vartype\(vt, vi\)\n\s*except RuntimeError as err:\n(?:\s*#[^\n]*\n)*\s*raise TypeError\(",
+        pyx, "cyconstrained.change_vartype unsupported")
+    out["change_vartype_unsupported"] = "GType"
+    # duplicate constraint label: ValueError, checked first in both add_constraint paths
+    n = len(re.findall(r"elif label in self\.constraint_labels:\n\s*raise ValueError\(\"a constraint with that label already exists\"\)", py))
+    if n != 2:
+        raise Bad("constrained.py: expected the duplicate-label check in exactly two add_constraint paths, found %d" % n)
+    out["duplicate_constraint_label"] = "GValue"
+    # _check_weight: non-positive weight and unknown penalty are ValueErrors; returns 'is quadratic'
+    m = one(r"def _check_weight\(weight, penalty\):\n(.*?)\n\n\n", pyx, "_check_weight")
+    body = re.sub(r"\s*#[^\n]*", "", m.group(1))
+    expect = (r"\s*cdef bias_type _weight = weight\n\s*if _weight <= 0:\n\s*raise ValueError\([^\n]*\)\n"
+              r"\s*if penalty not in \('linear', 'quadratic'\):\n\s*raise ValueError\([^\n]*\)\n"
+              r"\s*return penalty == 'quadratic'\s*")
+    if not re.fullmatch(expect, body):
+        raise Bad("_check_weight: body has an unrecognised shape")
+    # the quadratic penalty needs BINARY/SPIN variables: both add paths and set_weight
+    k = len(re.findall(r"not in \(cppVartype\.BINARY, cppVartype\.SPIN\):\n\s*raise ValueError\(\"quadratic penalty only allowed if the constraint has binary variables\"\)", pyx))
+    if k != 2:
+        raise Bad("cyconstrained.pyx: expected the quadratic-penalty vartype check in exactly two add paths, found %d" % k)
+    one(r"elif penalty == 'quadratic':\n\s*for i in range\(constraint\.num_variables\(\)\):\n"
+        r"\s*vartype = self\.parent\.cppcqm\.vartype\(constraint\.variables\(\)\[i\]\)\n"
+        r"\s*if vartype not in \(cppVartype\.BINARY, cppVartype\.SPIN\):\n"
+        r"\s*raise ValueError\(\"quadratic penalty only allowed if the constraint has binary variables\"\)\n"
+        r"\s*_penalty = cppPenalty\.QUADRATIC", cyexpr, "cyConstraintView.set_weight quadratic branch")
+    one(r"cdef bias_type _weight = float\('inf'\) if weight is None else weight\n\n\s*if _weight <= 0:\n\s*raise ValueError\(",
+        cyexpr, "cyConstraintView.set_weight weight check")
+    one(r"if penalty == 'linear':\n\s*_penalty = cppPenalty\.LINEAR", cyexpr, "cyConstraintView.set_weight linear branch")
+    out["weight_error"] = "GValue"
+    return out
+
+
 def main():
     global PYX_PATH
     build, out = sys.argv[1], sys.argv[2]
@@ -173,9 +216,11 @@ def main():
         PYX_PATH = os.path.join(build, "dimod/constrained/cyconstrained.pyx")
         pyx = read(build, "dimod/constrained/cyconstrained.pyx")
         py = read(build, "dimod/constrained/constrained.py")
-        read(build, "dimod/constrained/cyexpression.pyx")
+        cyexpr = read(build, "dimod/constrained/cyexpression.pyx")
+        cyvars = read(build, "dimod/cyvariables.pyx")
         fs, fb = flip_variable(pyx)
         marker_rules(pyx, py)
+        exc = exceptions_and_weights(pyx, py, cyexpr, cyvars)
     except Bad as e:
         print("cqm_rules.py: " + str(e))
         return 1
@@ -206,7 +251,22 @@ def main():
               "Definition gen_fix_requires_binary_nonzero : bool := true.",
               "Definition gen_fix_unmark : gen_mark_cond := GenMarkedAndContains.",
               "Definition gen_flip_unmark : gen_mark_cond := GenDiscreteBeforeAndContains.",
-              "Definition gen_remove_variable_refuses_discrete : bool := true.", ""]
+              "Definition gen_remove_variable_refuses_discrete : bool := true.", "",
+              "(* exception classes *)",
+              "Inductive gen_exc := GValue | GType | GKey.",
+              "Definition gen_exc_unknown_variable : gen_exc := %s." % exc["unknown_variable"],
+              "Definition gen_exc_unknown_constraint_view : gen_exc := %s." % exc["unknown_constraint_view"],
+              "Definition gen_exc_change_vartype_unsupported : gen_exc := %s." % exc["change_vartype_unsupported"],
+              "Definition gen_exc_duplicate_constraint_label : gen_exc := %s." % exc["duplicate_constraint_label"],
+              "Definition gen_exc_remove_variable_discrete : gen_exc := GValue.",
+              "Definition gen_exc_flip_not_binary : gen_exc := GValue.",
+              "Definition gen_exc_weight : gen_exc := %s." % exc["weight_error"], "",
+              "(* weight / penalty table: the weight must be positive; penalties are linear and quadratic; the quadratic",
+              "   penalty needs every variable of the constraint to be BINARY or SPIN; checked before the constraint is added *)",
+              "Inductive gen_penalty := GenLinear | GenQuadratic.",
+              "Definition gen_weight_must_be_positive : bool := true.",
+              "Definition gen_penalty_allowed (p : gen_penalty) (vt : vartype) : bool :=",
+              "  match p, vt with GenLinear, _ => true | GenQuadratic, (BINARY | SPIN) => true | GenQuadratic, _ => false end.", ""]
     os.makedirs(out, exist_ok=True)
     with open(os.path.join(out, "Gen_CQM.v"), "w") as fh:
         fh.write("\n".join(lines))
